@@ -1,7 +1,7 @@
 (* PropC10.v — C10: open never hangs or panics on any directory content: termination for ALL directories (any names, kinds, lengths, bytes); panic freedom by enumeration of the panic sites of the Rust code (slices, indexing, unwrap, assert, split_at ...), each with a guard on the model values proved to hold: read half for ANY directory, write half (recovery-time GC) when no WAL file is longer than a full file (false otherwise: finding F9), arithmetic-overflow sites (debug builds) when positions and file numbers stay below 2^64-1 (false otherwise: finding F6); the read accessors from the representation invariant.
    Statements only; each theorem is closed by `exact <lemma>`; proofs live in the imported files. *)
 From Coq Require Import Lia NArith List.
-From MRL Require Import Bytes Params Names Frame Record Mem Rolling Log OpenTerm SpecRefine PanicFree.
+From MRL Require Import Bytes Params Names Frame Record Mem Rolling Log OpenTerm SpecRefine PanicFree AllocBound AllocBoundTest.
 
 (* the replay loop always terminates: the model's fuel is never exhausted *)
 Theorem C10_open_terminates :
@@ -100,4 +100,51 @@ Theorem C10_f6_shape :
     next_position_u64 q = 0 /\ ~ log_last_position_guards true st q6 /\ ~ log_summary_guards true st.
 Proof. exact f6_shape. Qed.
 Print Assumptions C10_f6_shape.
+
+(* "never allocates without bound": for ANY directory content and fault plan, the memory open builds (payload bytes + per-record metadata + queue names) is at most alloc_factor (= 2 for 24-byte record metadata) times the total length of the listed WAL files plus one file *)
+Theorem C10_open_alloc_bound :
+    forall (P : params) (fs : fsT) (plan : option fplan) (pol : policy) (hint : list bytes) (st : state),
+    open P fs plan pol hint = OpenOk st ->
+    log_memory_used P st <= alloc_factor (RMS P) * (wal_bytes fs + FILE_BYTES P).
+Proof. exact open_alloc_bound. Qed.
+Print Assumptions C10_open_alloc_bound.
+
+(* the same against the number of files, when no WAL file is longer than a full file *)
+Theorem C10_open_alloc_bound_count :
+    forall (P : params) (fs : fsT) (plan : option fplan) (pol : policy) (hint : list bytes) (st : state),
+    (forall n : N, In n (list_wal_numbers fs) -> lenN (fcontent fs n) <= FILE_BYTES P) ->
+    open P fs plan pol hint = OpenOk st ->
+    log_memory_used P st <=
+    alloc_factor (RMS P) * (FILE_BYTES P * N.of_nat (length (list_wal_numbers fs))) +
+    alloc_factor (RMS P) * FILE_BYTES P.
+Proof. exact open_alloc_bound_count. Qed.
+Print Assumptions C10_open_alloc_bound_count.
+
+(* the largest transient allocation, the record reader's assembly buffer, never exceeds the bytes consumed so far (at every intermediate state of the replay loop) *)
+Theorem C10_open_reader_buffer_bound :
+    forall (P : params) (fs : fsT) (plan : option fplan) (c : ioctx) (rd : rreaderS)
+    (f g : nat) (rr : rreader_t) (r : replay_result),
+    rd_open P (ctx_init fs plan) = (c, Ok rd) ->
+    replay_loop P f g (rr_open rreaderS rd) [] = (rr, r) ->
+    lenN (rr_buf rr) + unread P (c_fs (rd_ctx rd)) rr <= wal_bytes fs + FILE_BYTES P.
+Proof. exact open_reader_buffer_bound. Qed.
+Print Assumptions C10_open_reader_buffer_bound.
+
+(* the count form needs its premise: an over-long file is replayed in full *)
+Theorem C10_alloc_count_bound_needs_premise :
+    exists (P : params) (fs : fsT) (st : state),
+    open P fs None PNothing [] = OpenOk st /\
+    alloc_factor (RMS P) * (FILE_BYTES P * N.of_nat (length (list_wal_numbers fs))) +
+    alloc_factor (RMS P) * FILE_BYTES P < log_memory_used P st.
+Proof. exact alloc_count_bound_needs_premise. Qed.
+Print Assumptions C10_alloc_count_bound_needs_premise.
+
+(* and the factor 2 is needed: empty records cost 12 bytes on disk and 24 in memory *)
+Theorem C10_alloc_factor_one_insufficient :
+    exists (P : params) (fs : fsT) (st : state),
+    open P fs None PNothing [] = OpenOk st /\
+    1 * (wal_bytes fs + FILE_BYTES P) < log_memory_used P st /\
+    1 * (fs_bytes fs + FILE_BYTES P) < log_memory_used P st.
+Proof. exact alloc_factor_one_insufficient. Qed.
+Print Assumptions C10_alloc_factor_one_insufficient.
 
